@@ -334,7 +334,7 @@ struct World {
     size_t arena_used = kArenaSize;          // bytes of the arena that hold objects (rounded up to pages)
     struct HeapObj { uintptr_t p; size_t n; int task; };
     std::vector<HeapObj> heap;              // blocks allocated by library code during a call: owned by the calling task until freed
-    uint64_t pr_heap = 0, pr_extra = 0, pr_env = 0, pr_libc_state = 0;
+    uint64_t pr_heap = 0, pr_extra = 0, pr_env = 0, pr_libc_state = 0, pr_libc_dest = 0;
     std::map<uintptr_t, int> handle_user;  // opaque libc handle -> the task whose call used it first
     bool env_on = false;                    // every environment variable library code asks for reads "1" in this run
     uint64_t events = 0;
@@ -651,6 +651,35 @@ void reent_libc_trap(uintptr_t pc, const char *name) {
             "  add $128,%rsp\n  pop %rax\n  pop %r9\n  pop %r8\n  pop %rcx\n  pop %rdx\n  pop %rsi\n  pop %rdi\n"              \
             "  jmp __real_" #name "\n.section .rodata\n.Lname_" #name ": .asciz \"" #name "\"\n.text\n");
 #include "libc_denylist.inc"
+
+// libc functions that WRITE THROUGH A POINTER the library gives them (string and formatting functions, sorting, number parsing with an
+// end pointer): libc does the stores, so the destination is checked here, as a store of the running call at that address (first byte:
+// the ownership of the object is what matters, the extent is libc's business and, for the caller's own objects, the guard pages').
+void reent_libc_dest(uintptr_t pc, const char *name, uintptr_t dest) {
+    (void)name;
+    if (!dest || !lib_active() || !sim::g_symtab.is_repo(pc)) return;
+    W->pr_libc_dest++;
+    check_access(dest, 1, true, pc);
+    preempt_point(true, dest);
+}
+#define DEST_LIBC(name, slot)                                                                                                   \
+    __asm__(".text\n.globl __wrap_" #name "\n.type __wrap_" #name ",@function\n__wrap_" #name ":\n"                            \
+            "  push %rdi\n  push %rsi\n  push %rdx\n  push %rcx\n  push %r8\n  push %r9\n  push %rax\n  sub $128,%rsp\n"     \
+            "  movdqu %xmm0,(%rsp)\n  movdqu %xmm1,16(%rsp)\n  movdqu %xmm2,32(%rsp)\n  movdqu %xmm3,48(%rsp)\n"               \
+            "  movdqu %xmm4,64(%rsp)\n  movdqu %xmm5,80(%rsp)\n  movdqu %xmm6,96(%rsp)\n  movdqu %xmm7,112(%rsp)\n"            \
+            "  mov 184(%rsp),%rdi\n  lea .Ldname_" #name "(%rip),%rsi\n  mov " #slot "(%rsp),%rdx\n  call reent_libc_dest\n"  \
+            "  movdqu (%rsp),%xmm0\n  movdqu 16(%rsp),%xmm1\n  movdqu 32(%rsp),%xmm2\n  movdqu 48(%rsp),%xmm3\n"               \
+            "  movdqu 64(%rsp),%xmm4\n  movdqu 80(%rsp),%xmm5\n  movdqu 96(%rsp),%xmm6\n  movdqu 112(%rsp),%xmm7\n"            \
+            "  add $128,%rsp\n  pop %rax\n  pop %r9\n  pop %r8\n  pop %rcx\n  pop %rdx\n  pop %rsi\n  pop %rdi\n"              \
+            "  jmp __real_" #name "\n.section .rodata\n.Ldname_" #name ": .asciz \"" #name "\"\n.text\n");
+// destination = first argument (saved %rdi is at 176(%rsp) inside the trampoline)
+DEST_LIBC(strcpy, 176) DEST_LIBC(strncpy, 176) DEST_LIBC(strcat, 176) DEST_LIBC(strncat, 176) DEST_LIBC(stpcpy, 176) DEST_LIBC(stpncpy, 176)
+DEST_LIBC(sprintf, 176) DEST_LIBC(snprintf, 176) DEST_LIBC(vsprintf, 176) DEST_LIBC(vsnprintf, 176) DEST_LIBC(memccpy, 176) DEST_LIBC(mempcpy, 176)
+DEST_LIBC(bzero, 176) DEST_LIBC(explicit_bzero, 176) DEST_LIBC(wmemcpy, 176) DEST_LIBC(wmemmove, 176) DEST_LIBC(wmemset, 176) DEST_LIBC(strxfrm, 176)
+DEST_LIBC(qsort, 176) DEST_LIBC(wcscpy, 176) DEST_LIBC(wcsncpy, 176)
+// destination = second argument (saved %rsi, 168(%rsp)): the end pointer of the number parsers, bcopy, swab
+DEST_LIBC(bcopy, 168) DEST_LIBC(swab, 168) DEST_LIBC(strtol, 168) DEST_LIBC(strtoul, 168) DEST_LIBC(strtoll, 168) DEST_LIBC(strtoull, 168)
+DEST_LIBC(strtod, 168) DEST_LIBC(strtof, 168)
 
 // The process environment is global state that a library call may consult (debug switches and the like). Cooperative fault point:
 // in half of the runs every variable that library code asks for is "set" (to "1"), so that whatever hides behind such a switch runs.
@@ -1149,6 +1178,7 @@ static void exec(const std::string &text, bool verbose) {
     if (bind_nextras) g_res.counters["calls_of_new_pointer_free_api"] = w.pr_extra;
     if (w.pr_env) g_res.counters["environment_lookups_by_library_code"] = w.pr_env;
     if (w.pr_libc_state) g_res.counters["libc_calls_with_state_object_by_library_code"] = w.pr_libc_state;
+    if (w.pr_libc_dest) g_res.counters["libc_calls_writing_through_a_pointer_by_library_code"] = w.pr_libc_dest;
     g_res.counters["scen." + saved_policy] = 1;
     g_res.counters[w.guard_layout ? "layout.guard_pages" : "layout.packed"] = 1;
     sim::finish_run(g_res);
